@@ -243,7 +243,9 @@ def run_impl(case, outdir, keep=False):
   os.makedirs(outdir, exist_ok=True)
   mods = real_modules(case)
   ss = [(tuple(mods[i] for i in g), tuple(mods[j] for j in d)) for g, d in case["groups"]]
-  conf = S["parser"].config_from_defaults()
+  if "conf" not in S:
+    S["conf"] = S["parser"].config_from_defaults()
+  conf = S["conf"]
   conf.output = outdir
   conf.inputs = list(case["req"])
   runner = pr.PytypeRunner(conf, ss)
@@ -254,25 +256,50 @@ def run_impl(case, outdir, keep=False):
   return sorted(files), read_plan(outdir)
 
 
+class Plan(list):
+  """The build statements read back; .unreadable is set when ninja's lexer rejects the file as a whole."""
+  unreadable = None
+
+
+def split_entry(line, outdir):
+  """One .imports line -> (key, path).  Paths always live under outdir, keys may contain spaces."""
+  i = line.rfind(" " + outdir + os.sep)
+  if i < 0:
+    k, _, v = line.partition(" ")
+    return k, v
+  return line[:i], line[i + 1:]
+
+
 def read_plan(outdir):
   with open(os.path.join(outdir, "build.ninja"), newline="") as f:
     text = f.read()
-  steps = []
-  for st in parse_ninja(text):
+  plan = Plan()
+  try:
+    sts = parse_ninja(text)
+    if len(sts) != len(statements_text(outdir)):
+      raise ValueError("a '$' at the end of a module binding swallowed the following statement")
+  except ValueError as e:
+    # ninja would reject the file.  Re-read it statement by statement (write_build_statement writes exactly
+    # three lines) so the rest of the plan can still be compared; the module binding is kept raw.
+    plan.unreadable = str(e)
+    sts = []
+    for chunk in statements_text(outdir):
+      l1, l2, l3 = chunk.split("\n")[:3]
+      st = parse_ninja(l1 + "\n")[0]
+      st["binds"] = {"imports": py_lex(l2[len("  imports = "):] + "\n", 0, False)[0], "module": None}
+      sts.append(st)
+  for st in sts:
     imp = st["binds"].get("imports", "")
-    items = []
     try:
       with open(imp, newline="") as f:
-        for line in f.read().split("\n"):
-          if line:
-            k, _, v = line.partition(" ")    # keys without spaces (monitored precondition)
-            items.append((k, v))
+        lines = [l for l in f.read().split("\n") if l]
+      items = [split_entry(l, outdir) for l in lines]
     except OSError:
-      items = None
-    steps.append({"out": st["outs"][0] if len(st["outs"]) == 1 else st["outs"], "action": st["rule"],
-                  "input": st["ins"][0] if len(st["ins"]) == 1 else st["ins"], "deps": st["implicit"],
-                  "impfile": imp, "imports": items, "module": st["binds"].get("module")})
-  return steps
+      lines = items = None
+    plan.append({"out": st["outs"][0] if len(st["outs"]) == 1 else st["outs"], "action": st["rule"],
+                 "input": st["ins"][0] if len(st["ins"]) == 1 else st["ins"], "deps": st["implicit"],
+                 "impfile": imp, "imports": items, "import_lines": lines, "module": st["binds"].get("module")})
+  return plan
 
 
 def statements_text(outdir):
@@ -325,6 +352,11 @@ def oracle(case, outdir, result, topo_cap=3000, rng=None):
   if result == "ERR":
     return bad
   _, steps = result
+  if getattr(steps, "unreadable", None):
+    raw_dollar = any("$" in m[2] for m in case["mods"])
+    bad.append(("module-name-not-escaped" if raw_dollar else "plan-unreadable",
+                "ninja cannot load build.ninja (%s); module names: %r" % (steps.unreadable, [m[2] for m in case["mods"]][:6])))
+    return bad
   default = os.path.join(outdir, "imports", "default.pyi")
   full = {}
   S = setup()
@@ -343,6 +375,7 @@ def oracle(case, outdir, result, topo_cap=3000, rng=None):
   if dups:
     bad.append(("dup-output:module-name-collision",
                 "two build statements declare the same output %r (ninja: multiple rules generate it)" % dups[0]))
+    return bad
   # declared dependency graph
   n = len(steps)
   preds = [set() for _ in range(n)]
@@ -416,7 +449,8 @@ def oracle(case, outdir, result, topo_cap=3000, rng=None):
     if s["input"] not in names:
       bad.append(("input-path-mangled", "statement input %r is no module's full path" % s["input"]))
     elif s["module"] not in names[s["input"]]:
-      fp = "module-name-not-escaped" if "$" in "".join(names[s["input"]]) else "module-name-mangled"
+      raw = "".join(names[s["input"]])
+      fp = "module-name-not-escaped" if ("$" in raw or any(x.startswith(" ") for x in names[s["input"]])) else "module-name-mangled"
       bad.append((fp, "statement for %r has module = %r, expected %r" % (s["input"], s["module"], sorted(names[s["input"]]))))
   # all linear schedules (explicit enumeration for small plans; the ancestor check above is the general argument)
   if not dups and not bad and n <= 8:
